@@ -188,6 +188,23 @@ func TestCheck(t *testing.T) {
 		}
 	}
 
+	// Lock-page geometry (thorough only: each program builds a 1 GiB database): with 64 KiB pages SQLite's lock
+	// page is page 16385; transactions grow across it, write the page after it, shrink back to just before it and
+	// across it, and roll back a growth across it.
+	nLock := 0
+	if run.Thorough() {
+		r := func(tx pager.RTx) prog.Op { t := tx; return prog.Op{Kind: "rtx", R: &t} }
+		lockProgs := [][]prog.Op{
+			{r(pager.RTx{NewSize: 16387, Mods: []uint32{2}, Final: "DELETE", Outcome: "commit"}), r(pager.RTx{Mods: []uint32{16386}, Final: "DELETE", Outcome: "commit"}), r(pager.RTx{NewSize: 16384, Final: "TRUNCATE", Outcome: "commit"})},
+			{r(pager.RTx{NewSize: 16386, Final: "PERSIST", Outcome: "commit"}), r(pager.RTx{NewSize: 16380, Mods: []uint32{3}, Final: "DELETE", Outcome: "commit"})},
+			{r(pager.RTx{NewSize: 16388, Mods: []uint32{2, 16383}, SpillAfter: []int{1}, Final: "DELETE", Outcome: "rollback"}), r(pager.RTx{NewSize: 16384, Final: "DELETE", Outcome: "commit"}), r(pager.RTx{NewSize: 16386, Final: "DELETE", Outcome: "commit"})},
+		}
+		for _, ops := range lockProgs {
+			cases = append(cases, prog.Case{PageSize: 65536, Start: 16383, Ops: ops})
+			nLock++
+		}
+	}
+
 	var st prog.Stats
 	prog.RunAll(run, "C02", cases, &st)
 
@@ -196,6 +213,7 @@ func TestCheck(t *testing.T) {
 		"transitions":                   st.Steps,
 		"traces_validated_against_impl": st.Cases,
 		"programs":                      st.Cases,
+		"lock_page_programs":            nLock,
 		"single_transaction_programs":   nSingles,
 		"chains_of_2":                   nChains2,
 		"chains_of_3":                   nChains3,
